@@ -1,7 +1,346 @@
-//! C09 (to be filled in)
+//! C09 — numbered backups never lose a version, for any name, history or kill point
+
 use super::*;
-pub fn run(_ctx: &Ctx) -> Report {
-    let mut r = Report::new("model_checking", "not implemented");
-    r.machinery_errors.push("C09 not implemented yet".into());
-    r
+use crate::explore::{explore, Judge};
+use crate::scen::{Entry, Kind};
+use crate::util::{esc, unesc};
+use serde::{Deserialize, Serialize};
+use serde_json::json;
+use std::collections::BTreeMap;
+use std::sync::Arc;
+
+/// exact `<name>.~N~`
+fn backup_number(name: &str, cand: &str) -> Option<u64> {
+    let rest = cand.strip_prefix(name)?;
+    let num = rest.strip_prefix(".~")?.strip_suffix('~')?;
+    if num.is_empty() || !num.bytes().all(|c| c.is_ascii_digit()) {
+        return None;
+    }
+    num.parse().ok()
+}
+
+// ---------------------------------------------------------------------------------------------
+// single-step scenarios (kill points, schedule search): judged from the scenario alone
+
+/// files below dstdir/ in the initial tree: name -> content
+fn initial_dst(scen: &Scenario) -> BTreeMap<String, Vec<u8>> {
+    scen.tree.iter().filter(|e| e.path.starts_with("dstdir/")).filter_map(|e| e.content().map(|c| (e.path["dstdir/".len()..].to_string(), c.bytes()))).collect()
+}
+
+fn source_names(scen: &Scenario) -> Vec<String> {
+    scen.tree.iter().filter(|e| e.path.starts_with("src/") && e.content().is_some()).map(|e| e.path["src/".len()..].to_string()).collect()
+}
+
+pub fn judge(_w: &Worker, scen: &Scenario, ex: &Exec) -> Judgement {
+    let mut v = vec![];
+    let init = initial_dst(scen);
+    let names = source_names(scen);
+    let mode = scen.args.iter().position(|a| a == "--backup").map(|i| scen.args[i + 1].clone()).unwrap_or_else(|| "none".into());
+    let after: BTreeMap<String, Vec<u8>> = ex.snap.iter().filter(|(k, n)| k.starts_with("dstdir/") && n.kind == 'f').map(|(k, n)| (k["dstdir/".len()..].to_string(), n.data.clone().unwrap_or_default())).collect();
+    for name in &names {
+        let old = match init.get(name) {
+            Some(o) => o,
+            None => continue,
+        };
+        let nums: Vec<u64> = init.keys().filter_map(|k| backup_number(name, k)).collect();
+        let wanted = mode == "numbered" || (mode == "auto" && !nums.is_empty());
+        let maxn = nums.iter().max().cloned().unwrap_or(0);
+        // every pre-existing backup of this name is untouched
+        for k in init.keys().filter(|k| backup_number(name, k).is_some()) {
+            if names.contains(k) {
+                continue; // a look-alike that is itself being copied
+            }
+            let p = format!("dstdir/{}", k);
+            match (ex.before.get(&p), ex.snap.get(&p)) {
+                (Some(b), Some(a)) => {
+                    if b.hash != a.hash || b.ino != a.ino || b.size != a.size || b.mtime != a.mtime {
+                        v.push(format!("existing backup {} was modified or replaced", k));
+                    }
+                }
+                (Some(_), None) => v.push(format!("existing backup {} disappeared", k)),
+                _ => {}
+            }
+        }
+        if wanted {
+            // the old content survives under the original name or under a backup name
+            let holders: Vec<&String> = after.iter().filter(|(k, d)| *d == old && (*k == name || backup_number(name, k).is_some())).map(|(k, _)| k).collect();
+            if holders.is_empty() {
+                v.push(format!("the previous content of {} exists neither under its name nor under a backup name ({})", name, ex.res.outcome.short()));
+            }
+            if exit0(ex) {
+                // preserved as <name>.~N~ with N greater than every number present before
+                let ok = after.iter().any(|(k, d)| d == old && backup_number(name, k).map(|n| n > maxn).unwrap_or(false));
+                if !ok {
+                    v.push(format!("exit 0 but the previous content of {} is not preserved as {}.~N~ with N > {}", name, name, maxn));
+                }
+            }
+        } else if exit0(ex) {
+            // no new backup appears
+            for k in after.keys() {
+                if backup_number(name, k).is_some() && !init.contains_key(k) {
+                    v.push(format!("backup {} was created although mode {} asks for none here", k, mode));
+                }
+            }
+        }
+    }
+    v.truncate(6);
+    simple_judge(v, ex, true)
+}
+
+fn step_scenario(name: &str, names: &[&str], pre: &[(usize, u64)], mode: &str, d: &str) -> Scenario {
+    let mut tree = vec![Entry::dir("src"), Entry::dir("dstdir")];
+    for (i, n) in names.iter().enumerate() {
+        tree.push(Entry::new(&format!("src/{}", n), Kind::File(crate::scen::Content::Bytes(format!("NEW-{}-{}", i, esc(n.as_bytes()))))));
+        tree.push(Entry::new(&format!("dstdir/{}", n), Kind::File(crate::scen::Content::Bytes(format!("OLD-{}-{}", i, esc(n.as_bytes()))))).mtime(1_200_000_000 + i as i64, 5));
+    }
+    for (ni, num) in pre {
+        let p = format!("dstdir/{}.~{}~", names[*ni], num);
+        if !tree.iter().any(|e| e.path == p) {
+            tree.push(Entry::new(&p, Kind::File(crate::scen::Content::Bytes(format!("BK-{}-{}", ni, num)))).mtime(1_100_000_000, *num as u32 % 1000));
+        }
+    }
+    Scenario::new(name, tree, &["-r", "-T", "--backup", mode, "--driver", d, "-w", "2", "--block-size", "4", "src", "dstdir"])
+}
+
+pub fn name_classes() -> Vec<(&'static str, Vec<&'static str>)> {
+    vec![("plain", vec!["a"]), ("space", vec!["a b"]), ("prefix-pair", vec!["a", "ab"]), ("lookalike", vec!["x", "x.~1~"]), ("non-utf8", vec!["f\\xff.txt"]), ("non-utf8-pair", vec!["\\xfe", "\\xfe\\xff"])]
+}
+
+// ---------------------------------------------------------------------------------------------
+// histories: sequences of copy steps onto one destination directory, against a history model
+
+#[derive(Serialize, Deserialize, Clone, Debug)]
+struct History {
+    class: String,
+    names: Vec<String>,
+    /// (index into names, backup number) present before the first step
+    pre: Vec<(usize, u64)>,
+    modes: Vec<String>,
+    driver: String,
+}
+
+#[derive(Serialize, Deserialize, Default)]
+struct Acc {
+    stats: Stats,
+    histories: u64,
+    steps: u64,
+    violations: Vec<(String, serde_json::Value)>,
+    errors: Vec<String>,
+    samples: Vec<String>,
+}
+
+fn run_history(w: &Worker, h: &History, acc: &mut Acc) {
+    let names: Vec<&str> = h.names.iter().map(|s| s.as_str()).collect();
+    let first = step_scenario(&format!("history-{}-{}", h.class, h.driver), &names, &h.pre, &h.modes[0], &h.driver);
+    let root = match w.prepare(&first) {
+        Ok(r) => r,
+        Err(e) => {
+            acc.errors.push(e);
+            return;
+        }
+    };
+    // model state: every regular file in dstdir
+    let mut state: BTreeMap<String, Vec<u8>> = initial_dst(&first);
+    acc.histories += 1;
+    for (k, mode) in h.modes.iter().enumerate() {
+        // fresh source content for this step
+        let mut newc: BTreeMap<String, Vec<u8>> = BTreeMap::new();
+        for n in &h.names {
+            let c = format!("v{}-{}", k + 1, n).into_bytes();
+            let p = crate::util::join(&root, &unesc(&format!("src/{}", n)));
+            if let Err(e) = std::fs::write(&p, &c) {
+                acc.errors.push(format!("write {:?}: {}", p, e));
+                return;
+            }
+            newc.insert(n.clone(), c);
+        }
+        let mut s = first.clone();
+        let bi = s.args.iter().position(|a| a == "--backup").unwrap();
+        s.args[bi + 1] = mode.clone();
+        let before = w.snapshot(&s);
+        let res = match w.exec(&s, &RunSpec::base(if k % 2 == 0 { Policy::P0 } else { Policy::P1 })) {
+            Ok(r) => r,
+            Err(e) => {
+                acc.errors.push(format!("history {:?} step {}: {}", h, k, e));
+                return;
+            }
+        };
+        acc.steps += 1;
+        acc.stats.execs += 1;
+        acc.stats.decision_points += res.decisions.len();
+        acc.stats.steps += res.steps;
+        acc.stats.traces.insert(res.trace_hash());
+        *acc.stats.exits.entry(res.outcome.short()).or_insert(0) += 1;
+        let snap = w.snapshot(&s);
+        let after: BTreeMap<String, Vec<u8>> = snap.iter().filter(|(p, n)| p.starts_with("dstdir/") && n.kind == 'f').map(|(p, n)| (p["dstdir/".len()..].to_string(), n.data.clone().unwrap_or_default())).collect();
+        // expected state after this step
+        let mut exp = state.clone();
+        let mut overflow = false;
+        for n in &h.names {
+            let old = state.get(n).cloned();
+            let nums: Vec<u64> = state.keys().filter_map(|c| backup_number(n, c)).collect();
+            let wanted = old.is_some() && (mode == "numbered" || (mode == "auto" && !nums.is_empty()));
+            if wanted {
+                match nums.iter().max().cloned().unwrap_or(0).checked_add(1) {
+                    Some(nn) => {
+                        exp.insert(format!("{}.~{}~", n, nn), old.unwrap());
+                    }
+                    None => overflow = true,
+                }
+            }
+            exp.insert(n.clone(), newc[n].clone());
+        }
+        // look-alike: a source named like a backup is overwritten with its own new content last
+        for n in &h.names {
+            exp.insert(n.clone(), newc[n].clone());
+        }
+        let mut msgs = vec![];
+        let ok = res.outcome == crate::sup::Outcome::Exited(0);
+        if ok && !overflow {
+            if after != exp {
+                for (kk, vv) in &exp {
+                    match after.get(kk) {
+                        None => msgs.push(format!("step {} ({}): {} is missing (expected {:?})", k + 1, mode, kk, String::from_utf8_lossy(vv))),
+                        Some(a) if a != vv => msgs.push(format!("step {} ({}): {} holds {:?}, expected {:?}", k + 1, mode, kk, String::from_utf8_lossy(a), String::from_utf8_lossy(vv))),
+                        _ => {}
+                    }
+                }
+                for kk in after.keys() {
+                    if !exp.contains_key(kk) {
+                        msgs.push(format!("step {} ({}): unexpected {} ({:?})", k + 1, mode, kk, String::from_utf8_lossy(&after[kk])));
+                    }
+                }
+            }
+            state = exp;
+        } else {
+            if ok && overflow {
+                msgs.push(format!("step {} ({}): exit 0 although the next backup number does not exist", k + 1, mode));
+            }
+            // failed step: nothing that had to be preserved may be lost, no existing backup modified
+            for (kk, vv) in &state {
+                let is_backup = h.names.iter().any(|n| backup_number(n, kk).is_some()) && !h.names.contains(kk);
+                if is_backup {
+                    if after.get(kk) != Some(vv) {
+                        msgs.push(format!("failed step {} ({}): existing backup {} changed or vanished", k + 1, mode, kk));
+                    }
+                } else {
+                    let nums: Vec<u64> = state.keys().filter_map(|c| backup_number(kk, c)).collect();
+                    let wanted = mode == "numbered" || (mode == "auto" && !nums.is_empty());
+                    if wanted && !after.iter().any(|(ak, av)| av == vv && (ak == kk || backup_number(kk, ak).is_some())) {
+                        msgs.push(format!("failed step {} ({}): the previous content of {} is gone", k + 1, mode, kk));
+                    }
+                }
+            }
+            state = after.clone();
+        }
+        // existing backups keep their inode across every step
+        for (p, b) in before.iter().filter(|(p, _)| p.starts_with("dstdir/")) {
+            let nm = &p["dstdir/".len()..];
+            let is_backup = h.names.iter().any(|n| backup_number(n, nm).is_some()) && !h.names.iter().any(|n| n == nm);
+            if is_backup {
+                if let Some(a) = snap.get(p) {
+                    if a.ino != b.ino || a.hash != b.hash {
+                        msgs.push(format!("step {} ({}): existing backup {} was replaced or rewritten", k + 1, mode, nm));
+                    }
+                }
+            }
+        }
+        if !msgs.is_empty() {
+            msgs.truncate(5);
+            acc.violations.push((format!("history {} names={:?} pre={:?} modes={:?} driver={}: {}", h.class, h.names, h.pre, h.modes, h.driver, msgs[0]), json!({"history": h, "step": k + 1, "messages": msgs, "listing": after.iter().map(|(a, b)| format!("{} = {:?}", a, String::from_utf8_lossy(b))).collect::<Vec<_>>(), "trace": res.trace_lines()})));
+            return;
+        }
+    }
+    if acc.samples.len() < 3 {
+        acc.samples.push(format!("history names={:?} pre={:?} modes={:?} driver={} -> {:?}", h.names, h.pre, h.modes, h.driver, state.keys().collect::<Vec<_>>()));
+    }
+}
+
+pub fn run(ctx: &Ctx) -> Report {
+    let mut rep = Report::new(
+        "model_checking",
+        "histories: every sequence of <= k copy steps, each choosing backup mode {none, auto, numbered} and fresh content, onto one destination directory x name classes {plain, with a space, prefix pair a+ab, look-alike x with x.~1~, non-UTF-8 bytes, non-UTF-8 prefix pair} x pre-existing backup numbers {none, {1}, {1,3}, {7}, {2^32}, {u64::MAX}} x both drivers, each step executed by the real binary and compared with a history model (old content preserved as <name>.~N~ with N above every existing number, existing backups keep inode and bytes, auto only when a backup exists); SIGKILL at every decision point of an overwrite step of each class; schedule search on the pair classes; non-trivial = distinct trace",
+    );
+    let q = ctx.quick();
+    let maxsteps = if q { 3 } else { 4 };
+    let mut seqs: Vec<Vec<String>> = vec![];
+    fn rec(cur: &mut Vec<String>, depth: usize, out: &mut Vec<Vec<String>>) {
+        if !cur.is_empty() {
+            out.push(cur.clone());
+        }
+        if depth == 0 {
+            return;
+        }
+        for m in ["none", "auto", "numbered"] {
+            cur.push(m.to_string());
+            rec(cur, depth - 1, out);
+            cur.pop();
+        }
+    }
+    rec(&mut vec![], maxsteps, &mut seqs);
+    // only maximal sequences and their prefixes are distinct histories; prefixes are covered by the longer ones
+    let seqs: Vec<Vec<String>> = seqs.into_iter().filter(|s| s.len() == maxsteps).collect();
+    let presets: Vec<Vec<u64>> = vec![vec![], vec![1], vec![1, 3], vec![7], vec![4294967296], vec![u64::MAX]];
+    let mut hs = vec![];
+    for (cn, names) in name_classes() {
+        for pre in &presets {
+            for target in 0..names.len() {
+                if cn == "lookalike" && pre.contains(&1) && target == 0 {
+                    // x.~1~ is both a backup of x and a file being copied; keep the set but do not create it twice
+                }
+                for d in drivers() {
+                    for s in &seqs {
+                        hs.push(History { class: cn.to_string(), names: names.iter().map(|s| s.to_string()).collect(), pre: pre.iter().map(|n| (target, *n)).collect(), modes: s.clone(), driver: d.to_string() });
+                    }
+                }
+                if pre.is_empty() {
+                    break;
+                }
+            }
+        }
+    }
+    let nh = hs.len();
+    let accs = crate::explore::par_work(&ctx.pool, hs, Acc::default, |w, h: History, _more, acc: &mut Acc| run_history(w, &h, acc));
+    let mut total = Stats::default();
+    let mut samples = vec![];
+    let mut nsteps = 0;
+    for a in accs {
+        nsteps += a.steps;
+        rep.plain_violations.extend(a.violations);
+        rep.machinery_errors.extend(a.errors);
+        for s in a.samples {
+            if samples.len() < 4 {
+                samples.push(json!(s));
+            }
+        }
+        total.merge(a.stats);
+    }
+    total.nontrivial_traces = total.traces.clone();
+    total.samples = samples.iter().map(|s| s.as_str().unwrap_or("").to_string()).collect();
+    rep.part("histories against the history model", total, json!({"histories": nh, "steps": nsteps, "max_steps": maxsteps}));
+    // kill points and schedule search on a single overwrite step
+    let j: Judge = &judge;
+    let mut kill = vec![];
+    let mut sched = vec![];
+    for (cn, names) in name_classes() {
+        for d in drivers() {
+            for mode in ["numbered", "auto"] {
+                let pre: Vec<(usize, u64)> = vec![(0, 1), (0, 3)];
+                let s = step_scenario(&format!("overwrite-{}-{}-{}", cn, mode, d), &names, &pre, mode, d);
+                kill.push(s.clone());
+                if names.len() > 1 {
+                    let s = Arc::new(s);
+                    for b in base_specs() {
+                        sched.push((s.clone(), b, if q { 1 } else { 2 }));
+                    }
+                }
+            }
+        }
+    }
+    let st = c03::kill_sweep(ctx, &kill, 0, j);
+    rep.part("SIGKILL at every decision point of an overwrite step", st, json!({"scenarios": kill.len()}));
+    let st = explore(&ctx.pool, sched, j);
+    rep.part("schedule search on the pair classes (two workers scanning one directory)", st, json!({"d": if q { 1 } else { 2 }}));
+    rep.assumptions = vec!["a backup number past u64::MAX cannot exist: the dev-profile build panics on the increment and exits non-zero with nothing lost, which the property tolerates".into()];
+    rep
 }
